@@ -1,0 +1,237 @@
+// Verification-only in-memory transport (compiled only with `--cfg hotstuff_verif`).
+//
+// Replaces `tokio::net::{TcpStream, TcpListener}` inside this crate by an in-process byte
+// pipe so that a test harness can own the network: every `connect()` can be handed to the
+// harness (the "switch"), which then reads, delays, duplicates, drops or cuts at will.
+// It also hosts the event sink used by the guarded hook lines of the other crates.
+use std::collections::{HashMap, VecDeque};
+use std::io;
+use std::net::SocketAddr;
+use std::pin::Pin;
+use std::sync::Mutex;
+use std::task::{Context, Poll};
+use tokio::io::{AsyncRead, AsyncWrite, DuplexStream, ReadBuf};
+use tokio::sync::mpsc::{unbounded_channel, UnboundedReceiver, UnboundedSender};
+
+pub struct TcpStream(DuplexStream);
+
+impl AsyncRead for TcpStream {
+    fn poll_read(
+        mut self: Pin<&mut Self>,
+        cx: &mut Context<'_>,
+        buf: &mut ReadBuf<'_>,
+    ) -> Poll<io::Result<()>> {
+        Pin::new(&mut self.0).poll_read(cx, buf)
+    }
+}
+
+impl AsyncWrite for TcpStream {
+    fn poll_write(
+        mut self: Pin<&mut Self>,
+        cx: &mut Context<'_>,
+        buf: &[u8],
+    ) -> Poll<io::Result<usize>> {
+        Pin::new(&mut self.0).poll_write(cx, buf)
+    }
+    fn poll_flush(mut self: Pin<&mut Self>, cx: &mut Context<'_>) -> Poll<io::Result<()>> {
+        Pin::new(&mut self.0).poll_flush(cx)
+    }
+    fn poll_shutdown(mut self: Pin<&mut Self>, cx: &mut Context<'_>) -> Poll<io::Result<()>> {
+        Pin::new(&mut self.0).poll_shutdown(cx)
+    }
+}
+
+/// A connection attempt intercepted by the harness switch.
+pub struct Intercepted {
+    /// The node (harness tag) that was running when `connect` was called.
+    pub origin: usize,
+    /// The address the node tried to reach.
+    pub dest: SocketAddr,
+    /// The harness end of the byte pipe.
+    pub stream: DuplexStream,
+}
+
+type RefusePolicy = Box<dyn Fn(usize, SocketAddr) -> bool + Send>;
+
+struct Net {
+    listeners: HashMap<u16, UnboundedSender<(TcpStream, SocketAddr)>>,
+    switch: Option<VecDeque<Intercepted>>,
+    refuse: Option<RefusePolicy>,
+    current: usize,
+    connects: u64,
+    events: Vec<String>,
+    seq: u64,
+}
+
+static NET: Mutex<Option<Net>> = Mutex::new(None);
+
+fn with_net<T>(f: impl FnOnce(&mut Net) -> T) -> T {
+    let mut g = match NET.lock() {
+        Ok(g) => g,
+        Err(p) => p.into_inner(),
+    };
+    if g.is_none() {
+        *g = Some(Net {
+            listeners: HashMap::new(),
+            switch: None,
+            refuse: None,
+            current: usize::MAX,
+            connects: 0,
+            events: Vec::new(),
+            seq: 0,
+        });
+    }
+    f(g.as_mut().unwrap())
+}
+
+const BUF: usize = 1 << 24;
+
+/// Forget every listener, the switch, the policy and all recorded events.
+pub fn reset() {
+    let mut g = match NET.lock() {
+        Ok(g) => g,
+        Err(p) => p.into_inner(),
+    };
+    *g = None;
+}
+
+/// From now on every `connect()` is queued for the harness instead of reaching a listener.
+pub fn install_switch() {
+    with_net(|n| n.switch = Some(VecDeque::new()));
+}
+
+/// Connection attempts for which the policy returns true fail with `ConnectionRefused`.
+pub fn set_refuse(f: RefusePolicy) {
+    with_net(|n| n.refuse = Some(f));
+}
+
+pub fn clear_refuse() {
+    with_net(|n| n.refuse = None);
+}
+
+/// Tag subsequent connects and events with this node index.
+pub fn set_current(node: usize) {
+    with_net(|n| n.current = node);
+}
+
+pub fn current() -> usize {
+    with_net(|n| n.current)
+}
+
+/// Number of `connect()` calls seen so far (successful or refused).
+pub fn connect_count() -> u64 {
+    with_net(|n| n.connects)
+}
+
+pub fn take_intercepted() -> Vec<Intercepted> {
+    with_net(|n| {
+        n.switch
+            .as_mut()
+            .map(|q| q.drain(..).collect())
+            .unwrap_or_default()
+    })
+}
+
+/// Harness side: open a connection straight to a node's listener.
+pub fn connect_direct(addr: SocketAddr) -> io::Result<DuplexStream> {
+    with_net(|n| match n.listeners.get(&addr.port()) {
+        Some(tx) => {
+            let (a, b) = tokio::io::duplex(BUF);
+            tx.send((TcpStream(b), "127.0.0.1:1".parse().unwrap()))
+                .map_err(|_| io::Error::new(io::ErrorKind::ConnectionRefused, "listener gone"))?;
+            Ok(a)
+        }
+        None => Err(io::Error::new(
+            io::ErrorKind::ConnectionRefused,
+            "no listener",
+        )),
+    })
+}
+
+impl TcpStream {
+    pub async fn connect(addr: SocketAddr) -> io::Result<TcpStream> {
+        with_net(|n| {
+            let origin = n.current;
+            n.connects += 1;
+            if let Some(f) = &n.refuse {
+                if f(origin, addr) {
+                    return Err(io::Error::new(
+                        io::ErrorKind::ConnectionRefused,
+                        "refused by policy",
+                    ));
+                }
+            }
+            let (a, b) = tokio::io::duplex(BUF);
+            if let Some(q) = n.switch.as_mut() {
+                q.push_back(Intercepted {
+                    origin,
+                    dest: addr,
+                    stream: b,
+                });
+                return Ok(TcpStream(a));
+            }
+            match n.listeners.get(&addr.port()) {
+                Some(tx) => {
+                    tx.send((TcpStream(b), "127.0.0.1:1".parse().unwrap()))
+                        .map_err(|_| {
+                            io::Error::new(io::ErrorKind::ConnectionRefused, "listener gone")
+                        })?;
+                    Ok(TcpStream(a))
+                }
+                None => Err(io::Error::new(
+                    io::ErrorKind::ConnectionRefused,
+                    "no listener",
+                )),
+            }
+        })
+    }
+}
+
+pub struct TcpListener {
+    rx: tokio::sync::Mutex<UnboundedReceiver<(TcpStream, SocketAddr)>>,
+}
+
+impl TcpListener {
+    pub async fn bind(addr: &SocketAddr) -> io::Result<TcpListener> {
+        let (tx, rx) = unbounded_channel();
+        with_net(|n| n.listeners.insert(addr.port(), tx));
+        Ok(TcpListener {
+            rx: tokio::sync::Mutex::new(rx),
+        })
+    }
+
+    pub async fn accept(&self) -> io::Result<(TcpStream, SocketAddr)> {
+        match self.rx.lock().await.recv().await {
+            Some(x) => Ok(x),
+            None => std::future::pending().await,
+        }
+    }
+}
+
+// ---------------------------------------------------------------------------------------
+// Event sink for the guarded hook lines. One global sequence number; the harness drives all
+// nodes from one thread, so the order of events is the order in which things happened.
+
+/// Record one event. `body` is the inside of a JSON object (without braces), e.g.
+/// `"ev":"Vote","round":3`. The sink adds `seq` and the current node tag.
+pub fn emit(body: String) {
+    with_net(|n| {
+        n.seq += 1;
+        let line = format!("{{\"seq\":{},\"node\":{},{}}}", n.seq, n.current as i64, body);
+        n.events.push(line);
+    });
+}
+
+pub fn drain_events() -> Vec<String> {
+    with_net(|n| std::mem::take(&mut n.events))
+}
+
+pub fn hex(bytes: &[u8]) -> String {
+    const T: &[u8; 16] = b"0123456789abcdef";
+    let mut s = String::with_capacity(bytes.len() * 2);
+    for b in bytes {
+        s.push(T[(b >> 4) as usize] as char);
+        s.push(T[(b & 15) as usize] as char);
+    }
+    s
+}
